@@ -48,4 +48,13 @@ VARIANTS = [
  dict(name='benign-annotations-local', file=N, expect='silent',
       find='\tif annotations == nil {\n\t\tannotations = make(map[string]string)\n\t}\n\tannotations[envelope.AnnotationX509ChainThumbprint] = string(val)',
       replace='\tif annotations == nil {\n\t\tannotations = make(map[string]string, 2)\n\t}\n\tannotations[envelope.AnnotationX509ChainThumbprint] = string(val)'),
+ dict(name='signer-annotations-copied-over-computed', file=N, expect='flagged(annotations/computed-values-win)',
+      find='\tannotations[ocispec.AnnotationCreated] = signingTime.Format(time.RFC3339)\n\treturn annotations, nil',
+      replace='\tout := map[string]string{envelope.AnnotationX509ChainThumbprint: string(val)}\n\tout[ocispec.AnnotationCreated] = signingTime.Format(time.RFC3339)\n\tfor k, v := range annotations {\n\t\tout[k] = v\n\t}\n\treturn out, nil'),
+ dict(name='created-only-when-absent', file=N, expect='flagged(annotations/computed-values-win)',
+      find='\tannotations[ocispec.AnnotationCreated] = signingTime.Format(time.RFC3339)\n',
+      replace='\tif _, ok := annotations[ocispec.AnnotationCreated]; !ok {\n\t\tannotations[ocispec.AnnotationCreated] = signingTime.Format(time.RFC3339)\n\t}\n'),
+ dict(name='benign-annotations-fresh-map-copy-first', file=N, expect='silent',
+      find='\tannotations[ocispec.AnnotationCreated] = signingTime.Format(time.RFC3339)\n\treturn annotations, nil',
+      replace='\tout := make(map[string]string, len(annotations)+2)\n\tfor k, v := range annotations {\n\t\tout[k] = v\n\t}\n\tout[envelope.AnnotationX509ChainThumbprint] = string(val)\n\tout[ocispec.AnnotationCreated] = signingTime.Format(time.RFC3339)\n\treturn out, nil'),
 ]
